@@ -20,6 +20,8 @@ MUTANTS = [
     ("nth-ge", N, "        if seen[k] == n:\n            assert out[k] == -1", "        if seen[k] >= n:\n            assert out[k] == -1", None, "_find_nth", "later rows overwrite the n-th"),
     ("nth-int16", N, "    out = np.full(ngroups, -1, dtype=np.int64)\n    seen = np.zeros(ngroups, dtype=np.int64)", "    out = np.full(ngroups, -1, dtype=np.int64)\n    seen = np.zeros(ngroups, dtype=np.int16)", None, "_find_nth", "16-bit counter wraps"),
     ("nth-mask", N, "        if masked and not mask[i]:\n            continue\n        if seen[k] == n:", "        if masked and mask[i]:\n            continue\n        if seen[k] == n:", None, "_find_nth", "mask inverted"),
+    ("nth-back", N, "        n = -n - 1\n", "        n = -n\n", None, "_find_nth[backward", "nth from the end off by one"),
+    ("firstn-norev", N, "    if not forward:\n        out = out[:, ::-1]\n", "", None, "_find_first_or_last_n[backward", "last-n rows returned in reverse order"),
     ("firstn-lt", N, "        if j < n:\n            out[k, j] = i", "        if j <= n:\n            out[k, j] = i", None, "_find_first_or_last_n", "writes column n (out of bounds / wrap)"),
     ("cum-lastseen", N, "            group_last_seen[key] = i\n", "            group_last_seen[key] = i - 1\n", 0, "_cumulative_reduce", "running value read from the wrong row"),
     ("roll-pos", N, "            group_positions[key] = (pos + 1) % window", "            group_positions[key] = pos + 1", None, "_rolling_sum_or_mean_1d", "buffer position runs off the window"),
@@ -27,6 +29,13 @@ MUTANTS = [
     ("roll-full", N, "            group_full = group_n_seen[key] >= window\n            if group_full:\n                old_val", "            group_full = group_n_seen[key] > window\n            if group_full:\n                old_val", None, "_rolling_sum_or_mean_1d", "window one row too long"),
     ("shift-order", N, "            group_buffers[key, pos] = val\n            # Update position\n            group_buffer_pos[key] = (pos + 1) % window", "            group_buffers[key, pos] = val\n            # Update position\n            group_buffer_pos[key] = (pos + 2) % window", None, "_rolling_shift_or_diff_1d", "buffer position skips a slot"),
     ("wcs-last", FZ, "    if codes[-1] == -1:\n        return -1\n", "", None, "_weight_code_sum", "null in the last key not propagated"),
+    ("mono-nan", FZ, "        if not x >= prev:\n", "        if x < prev:\n", None, "_monotonic_factorization[float", "a NaN inside a sorted run inherits its predecessor's code"),
+    ("mono-emptychunk", FZ, "        while cur_arr_pos == len(arr):\n", "        if cur_arr_pos == len(arr):\n", None, "_monotonic_factorization", "an empty chunk is read out of bounds"),
+    ("mono-firstnull", FZ, "    if arr[0] != arr[0]:\n        # a null first key: no prefix is monotonic (and nulls get no label)\n        return 0, codes, labels[:0]\n", "", None, "_monotonic_factorization[float", "a null first key gets a label"),
+    ("mono-newlabel", FZ, "        elif x > prev:\n            labels[n_labels] = x\n", "        elif x >= prev:\n            labels[n_labels] = x\n", None, "_monotonic_factorization", "equal keys get distinct labels"),
+    ("emat-seen", E, "        if seen[k]:\n", "        if last_seen_times[k] > 0:\n", None, "_ema_grouped_timed", "group-seen test by timestamp sign"),
+    ("emat-nan0", E, "    if np.isnan(arr[0]):\n        out[0] = np.nan\n        residual = 0.0\n        residual_weights = 0.0\n    else:\n        residual = out[0] = arr[0]\n        residual_weights = 1.0\n", "    residual = out[0] = arr[0]\n    residual_weights = 1.0\n", None, "_ema_time_weighted", "leading NaN poisons the sums"),
+    ("emaa-decay", E, "        residual *= beta\n        residual_weights *= beta\n\n    return out", "        residual *= beta\n\n    return out", None, "_ema_adjusted", "denominator not decayed"),
     ("cf-tracker", FZ, None, None, None, "_combine_factorizations", None),
     ("rap-count", N, "            count = counts[i]", "            count = counts[0]", None, "reduce_array_pair", "count of another group passed to the reducer"),
     ("sf-nanmin", N, "            if next_val < cur_min:\n                cur_min = next_val", "            if next_val > cur_min:\n                cur_min = next_val", None, "ScalarFuncs.nanmin", "comparison flipped"),
